@@ -82,7 +82,28 @@ pub const TARGETS: &[Target] = &[
     ("glueloops", "GlueLoops", glueloops as Gen),
     ("listown", "ListOwn", listown as Gen),
     ("mirlower", "MirLower", mirlower as Gen),
+    ("glueloopsdrv", "GlueLoopsDrv", glueloops_drv as Gen),
 ];
+
+/// What the DRIVER runs its glue model on (`c03 glue-check` / `glue-shallow`): the loops and
+/// decisions as `glueloops` reads them from the current source — the identical text — and, when
+/// that extraction fails (the source left the translated subset: `Generated/GlueLoops.lean` is
+/// then a stub that does not compile and every theorem over it is a broken obligation), the
+/// definitions as they were extracted from the tree the theorems were last proved on
+/// (`c03_glueloops_ref.lean`, a verbatim copy of a generated file).  The driver therefore still
+/// builds, answers `c03 check`, and its glue model states what a correct glue does, so that the
+/// search for a concrete failing input does not depend on a driver binary left over from an
+/// earlier run.  No theorem imports this module.
+fn glueloops_drv(repo: &Path) -> Result<String, String> {
+    match glueloops(repo) {
+        Ok(body) => Ok(body),
+        Err(e) => Ok(format!(
+            "/- FALLBACK for the driver only: extraction of `glueloops` failed ({}); these are the definitions last verified. -/\n{}",
+            e.replace('\n', " ").replace("-/", "- /"),
+            include_str!("c03_glueloops_ref.lean")
+        )),
+    }
+}
 
 fn norm<T: ToTokens>(t: &T) -> String {
     t.to_token_stream().to_string().replace(' ', "")
